@@ -260,6 +260,19 @@ Theorem C04_fast_out_fresh_next_le_max_B64_example :
   @fo_input_frames_next Floats.CB st = 1028%Z /\ @fo_input_frames_max Floats.CB st = 2054%Z.
 Proof. exact fo_fresh_example. Qed.
 
+(* SincFixedOut as constructed: the same statement (chunk_size = max_chunk_size) *)
+Theorem C04_sinc_out_fresh_next_le_max_B64 : forall (st : @SincGen.SincFixedOut Floats.CB),
+  let orig := SincGen.SincFixedOut_resample_ratio_original st in
+  let maxrel := SincGen.SincFixedOut_max_relative_ratio st in
+  let chunk := SincGen.SincFixedOut_max_chunk_size st in
+  let L := SincGen.SincFixedOut_interpolator_len st in
+  (1 <= chunk < 2 ^ 53)%Z ->
+  is_finite orig = true -> (0 < B2R orig)%R ->
+  is_finite maxrel = true -> (1 <= B2R maxrel)%R ->
+  SincGen.SincFixedOut_needed_input_size st = @SincGen.so_new_needed_input_size Floats.CB chunk L orig ->
+  (@SincGen.so_input_frames_next Floats.CB st <= @SincGen.so_input_frames_max Floats.CB st)%Z.
+Proof. exact so_fresh_next_le_max_B64. Qed.
+
 Print Assumptions C04_fast_in_counts_R.
 Print Assumptions C04_fast_out_counts_R.
 Print Assumptions C04_fast_in_next_le_max_R.
@@ -283,3 +296,4 @@ Print Assumptions C04_fast_in_next_le_max_B64.
 Print Assumptions C04_fast_in_next_le_max_accepted_B64.
 Print Assumptions C04_sinc_in_next_le_max_B64.
 Print Assumptions C04_fast_out_fresh_next_le_max_B64.
+Print Assumptions C04_sinc_out_fresh_next_le_max_B64.
